@@ -50,6 +50,8 @@ def check_pair_objs(old, new, expect_new, same, base):
   got = H.project_sorted(tgt)[0]
   if got != H.canon_sorted(expect_new):
     mism.append((feat('result-differs'), f'result {json.dumps(got)} expected {json.dumps(expect_new)}'))
+  elif type_signature(tgt) != type_signature(new):
+    mism.append((feat('node-types-differ'), f'types {type_signature(tgt)} expected {type_signature(new)}'))
   if r is not None and r is not tgt or id(tgt) != keep_id:
     mism.append((feat('not-in-place'), 'apply_diff did not mutate the structure in place'))
   if H.project(new)[0] != new_before:
@@ -162,6 +164,97 @@ def handmade_pairs(rng, n):
       tagging.set_tags(new.s1, 's2', [H.T1, H.T2])
       tagging.add_tag(new, 's3', H.T0)
     out.append((old, new, f'handmade-{ch}'))
+  return out + special_pairs()
+
+
+class MyConfig(fdl.Config):
+  """A user subclass of fdl.Config."""
+
+
+def kw_fn(s1=0, **kw):
+  return (s1, kw)
+
+
+def xy_fn(x=0, x_y=0, y=0):
+  return (x, x_y, y)
+
+
+def type_signature(x):
+  """Exact types of every Buildable and container, in traversal order (the projection abstracts subclasses)."""
+  from fiddle import daglish  # pylint: disable=g-import-not-at-top
+  return [type(v).__qualname__ for v, _ in daglish.iterate(x, memoized=False)
+          if isinstance(v, (fdl.Buildable, list, tuple, dict))]
+
+
+def special_pairs():
+  """Pairs aimed at clauses the random vocabulary does not reach (second-round seeded changes)."""
+  from fiddle._src import tagging
+  import fdlverif_helpers as top_helpers  # pylint: disable=g-import-not-at-top
+  from harness.c13pkg import fdlverif_helpers as sub_helpers  # pylint: disable=g-import-not-at-top
+  out = []
+  nan = float('nan')
+  # node types: tuple -> named tuple, Config -> Config subclass, Config -> TaggedValue holding it
+  old = fdl.Config(H.f1, s1=[(1, 2), fdl.Config(H.g4, s1=1)], s2={'k1': fdl.Config(H.g4, s1=2)})
+  new = copy.deepcopy(old)
+  new.s1 = [H.NT2(1, 2), MyConfig(H.g4, s1=1)]
+  new.s2 = {'k1': tagging.TaggedValue([H.T0], fdl.Config(H.g4, s1=2))}
+  out.append((old, new, 'node-types'))
+  out.append((new, copy.deepcopy(old), 'node-types-back'))
+  # a leaf that is not equal to itself
+  old = fdl.Config(H.f1, s1=nan, s2=[nan, 1], s3={'k1': nan})
+  out.append((old, copy.deepcopy(old), 'nan-copy'))
+  new = copy.deepcopy(old)
+  new.s2 = [nan, 2]
+  out.append((old, new, 'nan-edited'))
+  # callable swapped for one that takes the kept arguments through **kwargs
+  old = fdl.Config(H.f1, s1=fdl.Config(H.g4, s1=1, s2=2), s2=3)
+  new = copy.deepcopy(old)
+  fdl.update_callable(new.s1, kw_fn)
+  out.append((old, new, 'callable-swap-to-kwargs'))
+  # changes in parallel branches whose paths end alike (alias names), in moved subtrees too
+  def branch(v):
+    return fdl.Config(H.ClsA, s1=fdl.Config(H.g4, s1=fdl.Config(H.g4, s2=v)))
+  old = fdl.Config(H.f1, s1=branch(1), s2=branch(2))
+  new = copy.deepcopy(old)
+  new.s1.s1.s1.s2 = 7
+  new.s2.s1.s1.s2 = 8
+  out.append((old, new, 'parallel-branches'))
+  new2 = copy.deepcopy(new)
+  new2.s3 = [new2.s1.s1, new2.s2.s1]
+  new2.s1, new2.s2 = 4, 5
+  out.append((old, new2, 'parallel-branches-moved'))
+  old = fdl.Config(xy_fn, x=fdl.Config(xy_fn, y=fdl.Config(H.g4, s1=1)), x_y=fdl.Config(H.g4, s1=2))
+  new = copy.deepcopy(old)
+  new.x.y.s1 = 7
+  new.x_y.s1 = 8
+  new.y = [new.x.y, new.x_y]
+  new.x.y = 0
+  out.append((old, new, 'names-that-sanitise-alike'))
+  # new values from a sub-module and from a top-level module with the same last name
+  old = fdl.Config(H.f1, s1=1)
+  new = copy.deepcopy(old)
+  new.s2 = [fdl.Config(sub_helpers.make, s1=1), fdl.Config(top_helpers.make, s1=2)]
+  out.append((old, new, 'import-names-collide'))
+  new = copy.deepcopy(old)
+  new.s2 = [fdl.Config(top_helpers.make, s1=2), fdl.Config(sub_helpers.make, s1=1)]
+  out.append((old, new, 'import-names-collide-reversed'))
+  # an object whose only changes are a deletion and a tag, inside a subtree that moves
+  old = fdl.Config(H.f1, s1=fdl.Config(H.ClsA, s1=fdl.Config(H.g4, s1=1, s2=2), s2=3))
+  new = copy.deepcopy(old)
+  moved = new.s1
+  new.s2 = [moved]
+  new.s1 = 5
+  del moved.s1.s2
+  tagging.add_tag(moved.s1, 's1', H.T0)
+  out.append((old, new, 'delete-and-tag-inside-moved-subtree'))
+  old2 = copy.deepcopy(old)
+  tagging.add_tag(old2.s1.s1, 's2', H.T1)
+  new = copy.deepcopy(old2)
+  moved = new.s1
+  new.s3 = moved
+  new.s1 = 6
+  tagging.remove_tag(moved.s1, 's2', H.T1)
+  out.append((old2, new, 'tag-removed-inside-moved-subtree'))
   return out
 
 
@@ -223,7 +316,8 @@ def main():
     ex, nex = extra_pairs(rng, 200 if quick else 2000)
     hm = []
     for old, new, label in handmade_pairs(rng, 40 if quick else 400):
-      hm += check_pair_objs(old, new, H.project(new)[0], old is new, {'rw': label, 'nedits': 0})
+      hm += check_pair_objs(old, new, H.project(new)[0], old is new or label.endswith('-copy'),
+                            {'rw': label, 'nedits': 0})
       nex += 1
     for f, msg in ex + positional_scenario() + hm:
       v.mismatch(f, {'message': msg})
